@@ -129,7 +129,9 @@ func (k *c14) scenario(c *core.Ctx, i int) c14Scenario {
 			// prices that vanish at 8 decimals in the valuation commodity, and a commodity priced only through them
 			sc.kind = "semantic-price-underflow"
 			big := []string{"260000000", "100000001", "99999999999", "1500000000.5"}[r.Intn(4)]
-			body = "2020-01-02 price CHF " + big + " IDR\n2020-01-02 price BBCA 8550 IDR\n2020-01-02 price XAU 0.00000001 IDR\n\n2020-02-01 \"cheap\"\nAssets:Bank Expenses:Food 1000 IDR\n\n2020-02-02 \"via cheap\"\nAssets:Bank Assets:Depot 3 BBCA\n\n2020-03-01 price BBCA 8600 IDR\n"
+			// at and below the 8th decimal: a price that is not zero but has no digit left at scale 8
+			tiny := []string{"0.00000001", "0.000000009", "0.0000000001", "0.00000000999999", "0.000000000000000000001"}[r.Intn(5)]
+			body = "2020-01-02 price CHF " + big + " IDR\n2020-01-02 price BBCA 8550 IDR\n2020-01-02 price XAU " + tiny + " IDR\n\n2020-02-01 \"cheap\"\nAssets:Bank Expenses:Food 1000 IDR\n\n2020-02-02 \"via cheap\"\nAssets:Bank Assets:Depot 3 BBCA\n\n2020-03-01 price BBCA 8600 IDR\n"
 		case 12, 13:
 			// a transaction dated after today: beyond the default window
 			fd := []string{"2999-01-01", "9999-12-31", "2300-06-15", "2262-04-12"}[r.Intn(4)]
